@@ -177,6 +177,10 @@ def check(program: Program, run: Run) -> None:
         raise AnalysisError(f"instance count below floor: cells {cells}")
     _setters(program, run)
 
+    # ---- the mechanism keeps no state between renderings (shared rule, see families.inherit_history_dependence)
+    from ..families import inherit_history_dependence
+    run.rule("history: no function of this property's mechanism writes object / class / parameterizer state while rendering or memoises on a copied object (inherited from C02 and C01)")
+    inherit_history_dependence(program, run, "C09", r"^Parameterizer\.|\._(limit|offset)_sql|\._apply_pagination|^ValueWrapper\.get_sql", "a limit / offset value reached twice in one parameterised statement is not recorded for each placeholder it prints")
 
 def _setters(program: Program, run: Run) -> None:
     want = {"limit": {"_limit": "limit"}, "offset": {"_offset": "offset"}, "fetch_next": {"_limit": "limit"},
